@@ -191,7 +191,18 @@ func mergeValues(c *Term, a, b Value) Value {
 		}
 		return VStruct{x.T, f}
 	case VArr:
-		y := b.(VArr)
+		y, okArr := b.(VArr)
+		if !okArr {
+			xf, yf := flatten2(a), flatten2(b)
+			if len(xf) == len(yf) {
+				f := make([]Value, len(xf))
+				for i := range xf {
+					f[i] = VInt{Ite(c, xf[i], yf[i])}
+				}
+				return VSpecTuple{f}
+			}
+			panic(execError{"merge of array with incompatible value"})
+		}
 		if len(x.E) != len(y.E) {
 			panic(execError{"merge of arrays with different length"})
 		}
@@ -200,6 +211,25 @@ func mergeValues(c *Term, a, b Value) Value {
 			f[i] = mergeValues(c, x.E[i], y.E[i])
 		}
 		return VArr{f}
+	case VSpecTuple:
+		y, ok := b.(VSpecTuple)
+		if ok && len(x.E) == len(y.E) {
+			f := make([]Value, len(x.E))
+			for i := range x.E {
+				f[i] = mergeValues(c, x.E[i], y.E[i])
+			}
+			return VSpecTuple{f}
+		}
+		// tuple against a structured value with the same leaves
+		yf := flatten2(b)
+		xf := flatten2(a)
+		if len(xf) == len(yf) {
+			f := make([]Value, len(xf))
+			for i := range xf {
+				f[i] = VInt{Ite(c, xf[i], yf[i])}
+			}
+			return VSpecTuple{f}
+		}
 	case VSlice:
 		y, ok := b.(VSlice)
 		if !ok {
@@ -283,6 +313,17 @@ func flatten(v Value, out []*Term) []*Term {
 		return out
 	}
 	panic(execError{fmt.Sprintf("cannot flatten %T", v)})
+}
+
+func flatten2(v Value) []*Term {
+	if t, ok := v.(VSpecTuple); ok {
+		var out []*Term
+		for _, e := range t.E {
+			out = append(out, flatten2(e)...)
+		}
+		return out
+	}
+	return flatten(v, nil)
 }
 
 type execError struct{ msg string }
